@@ -3,19 +3,24 @@
 block, boxed as it is) driven by a hand scheduler over a MODEL of tokio's Semaphore and of DashMap.
 
 The futures are real Rust futures polled with a no-op waker; the wrapped service is a future that completes when the scheduler says so and that counts
-itself in and out (also when it is dropped unfinished).  The scheduler enumerates every sequence of: start the next request, poll a started request,
-let a request inside the wrapped service finish, drop (cancel) a started request.
+itself in and out (also when it is dropped unfinished).  The scheduler enumerates every sequence of: start the next request (with or without polling it
+at once), poll a started request, let a request inside the wrapped service finish, drop (cancel) a started request.
 
 The model of tokio::sync::Semaphore (trusted, stated): a counter of permits; `acquire()` is a future that takes a permit when one is there and is
 pending otherwise (no queueing order is modelled: whichever waiter is polled first wins); `try_acquire()` takes one or reports NoPermits; a permit gives
-its slot back when dropped.  DashMap: a mutex around an association list."""
+its slot back when dropped.  DashMap: a mutex around an association list.
+
+Second harness (C19): the per-peer rate limiter (rate_limit.rs: RateLimitLayer::{new, layer}, RateLimit::{new, layer}, `impl Service for RateLimit`::call) on a
+MODEL of governor 0.6 over a virtual clock: a keyed GCRA (per key a theoretical arrival time; a cell is admitted iff now >= tat - (burst - 1) x period, and
+then tat = max(tat, now) + period; otherwise NotUntil(tat - (burst - 1) x period)); `until_key_ready` is a future that is ready when `check_key` admits."""
 import prelude as P
 
 NAME = 'enum_limits'
 BACKEND = 'enum'
 IL = 'crates/anemo-tower/src/inflight_limit.rs'
 RESP = 'crates/anemo/src/types/response.rs'
-COVER = {'inflight_schedules': [0, 1, 2, 3, 4, 5]}
+RL = 'crates/anemo-tower/src/rate_limit.rs'
+COVER = {'inflight_schedules': [0, 1, 2, 3, 4, 5], 'rate_limit_histories': [0, 1, 2, 3, 4]}
 
 PRELUDE = r'''// GENERATED on every run by /verif/vc from /repo's working tree -- do not edit
 #![allow(dead_code, unused, non_upper_case_globals, non_camel_case_types)]
@@ -111,6 +116,13 @@ pub mod dashmap {
         pub fn contains_key(&self, key: &K) -> bool { self.items.lock().unwrap().iter().any(|kv| &kv.0 == key) }
         pub fn remove(&self, key: &K) -> Option<(K, V)> { let mut g = self.items.lock().unwrap(); let i = g.iter().position(|kv| &kv.0 == key)?; Some(g.remove(i)) }
         pub fn len(&self) -> usize { self.items.lock().unwrap().len() }
+        // (more of DashMap's API, for edits that reach for it)
+        pub fn is_empty(&self) -> bool { self.items.lock().unwrap().is_empty() }
+        pub fn clear(&self) { self.items.lock().unwrap().clear() }
+        pub fn remove_if(&self, key: &K, f: impl FnOnce(&K, &V) -> bool) -> Option<(K, V)> { let mut g = self.items.lock().unwrap(); let i = g.iter().position(|kv| &kv.0 == key)?; if f(&g[i].0, &g[i].1) { Some(g.remove(i)) } else { None } }
+        pub fn remove_if_mut(&self, key: &K, f: impl FnOnce(&K, &mut V) -> bool) -> Option<(K, V)> { let mut g = self.items.lock().unwrap(); let i = g.iter().position(|kv| &kv.0 == key)?; let keep = { let kv = &mut g[i]; f(&kv.0, &mut kv.1) }; if keep { Some(g.remove(i)) } else { None } }
+        pub fn retain(&self, mut f: impl FnMut(&K, &mut V) -> bool) { let mut g = self.items.lock().unwrap(); let mut i = 0; while i < g.len() { let keep = { let kv = &mut g[i]; f(&kv.0, &mut kv.1) }; if keep { i += 1; } else { g.remove(i); } } }
+        pub fn alter(&self, key: &K, f: impl FnOnce(&K, V) -> V) where V: Clone { let mut g = self.items.lock().unwrap(); if let Some(i) = g.iter().position(|kv| &kv.0 == key) { let v = g[i].1.clone(); g[i].1 = f(&g[i].0, v); } }
     }
     impl<'a, K: PartialEq + Clone, V> Entry<'a, K, V> {
         pub fn or_insert_with<F: FnOnce() -> V>(mut self, f: F) -> RefMut<'a, K, V> {
@@ -126,6 +138,60 @@ pub mod dashmap {
     impl<'a, K, V> std::ops::Deref for Ref<'a, K, V> { type Target = V; fn deref(&self) -> &V { self.value() } }
 }
 use dashmap::DashMap;
+// ---- the model of governor 0.6 over a virtual clock (see the unit's docstring) --------------------------------------------------------------
+pub static NOW_NS: std::sync::atomic::AtomicU64 = std::sync::atomic::AtomicU64::new(1_000_000);
+pub mod governor {
+    use std::marker::PhantomData;
+    use std::sync::atomic::Ordering;
+    use std::sync::Mutex;
+    use std::time::Duration;
+    pub mod clock {
+        pub trait Clock: Clone { type Instant: Copy; fn now(&self) -> Self::Instant; }
+        #[derive(Clone, Debug, Default)] pub struct DefaultClock;
+        impl Clock for DefaultClock { type Instant = u64; fn now(&self) -> u64 { super::super::NOW_NS.load(std::sync::atomic::Ordering::SeqCst) } }
+        pub type QuantaClock = DefaultClock;
+    }
+    pub mod middleware { #[derive(Debug)] pub struct NoOpMiddleware<I = u64>(pub std::marker::PhantomData<I>); }
+    pub mod state { pub mod keyed { #[derive(Debug)] pub struct DefaultKeyedStateStore<K>(pub std::marker::PhantomData<K>); } #[derive(Debug)] pub struct NotKeyed; #[derive(Debug)] pub struct InMemoryState; }
+    #[derive(Clone, Copy, Debug)] pub struct Quota { pub burst: u32, pub period_ns: u64 }
+    impl Quota {
+        pub fn with_period(p: Duration) -> Option<Quota> { if p.is_zero() { None } else { Some(Quota { burst: 1, period_ns: p.as_nanos() as u64 }) } }
+        pub fn per_second(n: std::num::NonZeroU32) -> Quota { Quota { burst: n.get(), period_ns: 1_000_000_000 / n.get() as u64 } }
+        pub fn allow_burst(mut self, n: std::num::NonZeroU32) -> Quota { self.burst = n.get(); self }
+    }
+    #[derive(Debug)] pub struct NotUntil { pub earliest: u64 }
+    impl NotUntil {
+        pub fn wait_time_from(&self, from: u64) -> Duration { Duration::from_nanos(self.earliest.saturating_sub(from)) }
+        pub fn earliest_possible(&self) -> u64 { self.earliest }
+    }
+    #[derive(Debug)]
+    pub struct RateLimiter<K, S, C, MW> { pub quota: Quota, pub cells: Mutex<Vec<(Option<K>, u64)>>, pub p: PhantomData<(S, C, MW)> }
+    fn gcra<K: PartialEq + Clone>(cells: &Mutex<Vec<(Option<K>, u64)>>, q: Quota, key: Option<K>) -> Result<(), NotUntil> {
+        let now = super::NOW_NS.load(Ordering::SeqCst);
+        let mut g = cells.lock().unwrap();
+        let idx = match g.iter().position(|c| c.0 == key) { Some(i) => i, None => { g.push((key, 0)); g.len() - 1 } };
+        let tat = g[idx].1;
+        let tau = q.period_ns * (q.burst as u64 - 1);
+        if tat > now + tau { return Err(NotUntil { earliest: tat - tau }); }
+        g[idx].1 = std::cmp::max(tat, now) + q.period_ns;
+        Ok(())
+    }
+    impl<K: PartialEq + Clone> RateLimiter<K, state::keyed::DefaultKeyedStateStore<K>, clock::DefaultClock, middleware::NoOpMiddleware<u64>> {
+        pub fn keyed(quota: Quota) -> Self { RateLimiter { quota, cells: Mutex::new(Vec::new()), p: PhantomData } }
+        pub fn dashmap(quota: Quota) -> Self { Self::keyed(quota) }
+        pub fn dashmap_with_clock(quota: Quota, _clock: &clock::DefaultClock) -> Self { Self::keyed(quota) }
+        pub fn hashmap(quota: Quota) -> Self { Self::keyed(quota) }
+        pub fn check_key(&self, key: &K) -> Result<(), NotUntil> { gcra(&self.cells, self.quota, Some(key.clone())) }
+        pub fn until_key_ready<'a>(&'a self, key: &'a K) -> UntilKeyReady<'a, K> { UntilKeyReady { l: self, key } }
+        // (the unkeyed API, for edits that reach for it: one cell for everybody)
+        pub fn check(&self) -> Result<(), NotUntil> { gcra(&self.cells, self.quota, None) }
+    }
+    pub struct UntilKeyReady<'a, K> { l: &'a RateLimiter<K, state::keyed::DefaultKeyedStateStore<K>, clock::DefaultClock, middleware::NoOpMiddleware<u64>>, key: &'a K }
+    impl<'a, K: PartialEq + Clone> std::future::Future for UntilKeyReady<'a, K> {
+        type Output = ();
+        fn poll(self: std::pin::Pin<&mut Self>, _cx: &mut std::task::Context<'_>) -> std::task::Poll<()> { if self.l.check_key(self.key).is_ok() { std::task::Poll::Ready(()) } else { std::task::Poll::Pending } }
+    }
+}
 '''
 
 HARNESS = r'''
@@ -163,12 +229,13 @@ pub fn main() {
     if args.len() == 4 && args[1] == "--replay" {
         let choices: Vec<(u32, u32)> = args[3].split(',').filter(|s| !s.is_empty()).map(|s| (s.trim().parse().unwrap(), u32::MAX)).collect();
         let mut ch = Chooser { path: choices, pos: 0 };
-        harness::inflight_schedules(&mut ch);
+        if args[2] == "rate_limit_histories" { harness::rate_limit_histories(&mut ch); } else { harness::inflight_schedules(&mut ch); }
         println!("no assertion failed for this choice sequence");
         return;
     }
     std::panic::set_hook(Box::new(|_| {}));
     run_all("inflight_schedules", harness::inflight_schedules);
+    run_all("rate_limit_histories", harness::rate_limit_histories);
 }
 pub mod harness {
     use super::*;
@@ -200,10 +267,11 @@ pub mod harness {
     const P2: PeerId = PeerId([2; 32]);
     pub const REQUESTS: usize = 3;
     pub const STEPS: usize = 6;
+    pub const PLAIN_START: bool = false;     // (the thorough tier also starts requests WITHOUT polling them at once)
     #[derive(PartialEq, Clone, Copy, Debug)] enum St { NotStarted, Started, Refused, Finished, Dropped }
     fn poll_once<F: Future + ?Sized>(f: Pin<&mut F>) -> Poll<F::Output> { let w = std::task::Waker::noop(); let mut cx = Context::from_waker(&w); f.poll(&mut cx) }
     fn inside_of(w: &Arc<Mutex<World>>, p: PeerId) -> usize { w.lock().unwrap().inside.iter().filter(|x| x.1 == p).count() }
-    pub fn inflight_schedules(ch: &mut Chooser) { // @EOBL [C18] @BOUNDED the real InflightLimitLayer / InflightLimit (constructors, layer, call with its async block) on the model of tokio's Semaphore, for a limit of 1 or 2, Block or ReturnError, REQUESTS requests each from peer 1, peer 2 or without identity, issued through one layered service, a clone of it, or a second service built by the same layer, and EVERY schedule of STEPS actions out of: start the next request, poll a started request, let a request inside the wrapped service finish, drop a started request: at every instant at most `limit` requests of one peer are inside the wrapped service; a request polled while its peer is below the limit gets in (one peer's load never takes another's slot); at the limit it waits (Block) or is refused with TooManyRequests without ever reaching the service (ReturnError); a request without identity is refused with InternalServerError; nothing reaches the service twice; and after everything has finished, failed or been dropped every peer can again have exactly `limit` requests inside (no slot leaks, none appears)
+    pub fn inflight_schedules(ch: &mut Chooser) { // @EOBL [C18] @BOUNDED the real InflightLimitLayer / InflightLimit (constructors, layer, call with its async block) on the model of tokio's Semaphore, for a limit of 1 or 2, Block or ReturnError, REQUESTS requests each from peer 1, peer 2 or without identity, issued through one layered service, a clone of it, or a second service built by the same layer, and EVERY schedule of STEPS actions out of: start the next request and poll it once (the thorough tier: also start it without polling), poll a started request, let a request inside the wrapped service finish, drop a started request: at every instant at most `limit` requests of one peer are inside the wrapped service; a request polled while its peer is below the limit gets in (one peer's load never takes another's slot); at the limit it waits (Block) or is refused with TooManyRequests without ever reaching the service (ReturnError); a request without identity is refused with InternalServerError; nothing reaches the service twice; and after everything has finished, failed or been dropped every peer can again have exactly `limit` requests inside (no slot leaks, none appears)
         let limit = 1 + ch.below(2) as usize;
         let mode = if ch.any_bool() { WaitMode::Block } else { WaitMode::ReturnError };
         let block = matches!(mode, WaitMode::Block);
@@ -220,18 +288,23 @@ pub mod harness {
         while step < STEPS {
             // enabled actions: 0 = start the next request; then poll / finish / drop for each started one
             let mut acts: Vec<(u8, usize)> = Vec::new();
-            if started < REQUESTS { acts.push((0, started)); }
+            if started < REQUESTS { if PLAIN_START { acts.push((0, started)); } acts.push((4, started)); }      // 4: start it and poll it once right away
             for i in 0..started { if st[i] == St::Started { acts.push((1, i)); if world.lock().unwrap().inside.iter().any(|x| x.0 == i) && !world.lock().unwrap().may_finish.contains(&i) { acts.push((2, i)); } acts.push((3, i)); } }
             if acts.is_empty() { break; }
-            let (a, i) = acts[ch.below(acts.len() as u32) as usize];
-            match a {
+            let (a0, i) = acts[ch.below(acts.len() as u32) as usize];
+            let mut a = a0;
+            if a == 4 { a = 0; }
+            let mut again = true;
+            while again { again = false; match a {
                 0 => {
                     let who = match ch.below(3) { 0 => Some(P1), 1 => Some(P2), _ => None };
                     peers[i] = who;
                     let req = Request { peer: who, id: i, body: () };
                     let f = match ch.below(3) { 0 => svc_a.clone().call(req), 1 => { let mut s = svc_a.clone(); s.call(req) } , _ => svc_b.clone().call(req) };
-                    assert!(!world.lock().unwrap().entered.contains(&i) || true);
+                    let full = who.map_or(true, |p| inside_of(&world, p) >= limit);
+                    assert!(!(full && world.lock().unwrap().entered.contains(&i)), "a request was handed to the wrapped service before a slot was taken for it (its peer is at the limit, or it has no identity)");
                     futs.push(Some(f)); st[i] = St::Started; started += 1;
+                    if a0 == 4 { a = 1; again = true; }
                 }
                 1 => {
                     let was_inside = world.lock().unwrap().entered.contains(&i);
@@ -259,7 +332,7 @@ pub mod harness {
                 }
                 2 => { world.lock().unwrap().may_finish.push(i); cover(3); }
                 _ => { futs[i] = None; st[i] = St::Dropped; cover(4); }
-            }
+            } }
             check_bound(&world);
             step += 1;
         }
@@ -279,6 +352,86 @@ pub mod harness {
                 keep.push(f);
             }
             drop(keep);
+        }
+    }
+
+    // ---- C19 ------------------------------------------------------------------------------------------------------------------------------------
+    #[derive(Clone)] pub struct Instant0(pub Arc<Mutex<Vec<(usize, Option<PeerId>, u64)>>>);       // (request, sender, virtual time) of everything that reached the service
+    impl Service<Request<()>> for Instant0 {
+        type Response = Response<()>; type Error = Status; type Future = std::future::Ready<Result<Response<()>, Status>>;
+        fn poll_ready(&mut self, _cx: &mut Context<'_>) -> Poll<Result<(), Status>> { Poll::Ready(Ok(())) }
+        fn call(&mut self, req: Request<()>) -> Self::Future {
+            let mut g = self.0.lock().unwrap();
+            assert!(!g.iter().any(|x| x.0 == req.id), "a request reached the wrapped service twice");
+            g.push((req.id, req.peer, NOW_NS.load(Ordering::SeqCst)));
+            std::future::ready(Ok(Response { id: req.id, body: () }))
+        }
+    }
+    pub const RL_REQUESTS: usize = 4;
+    pub fn rate_limit_histories(ch: &mut Chooser) { // @EOBL [C19] @BOUNDED the real RateLimitLayer / RateLimit (constructors, layer, call with its async block) on the model of governor over a virtual clock: quota burst 1 or 2 per period of 10 time units, Block or ReturnError, every history of RL_REQUESTS requests, each from peer 1, peer 2 or without identity, arriving 0 / 4 / 10 / 25 units after the previous one, through one layered service, its clone or a second service of the same layer: the requests of one peer admitted to the wrapped service within ANY window never exceed burst + window / period (checked on the admission times, not on the model's state); a request over quota is refused with TooManyRequests carrying a wait-nanos header that is a positive integer (ReturnError) or waits and gets in once the quota allows (Block); refused and waiting requests never reach the service; one peer exhausting its quota changes nothing for the other; a request without identity is refused with InternalServerError
+        use rate_limit::{RateLimitLayer, WaitMode as RlMode};
+        let burst = 1 + ch.below(2);
+        let period: u64 = 10;
+        let block = ch.any_bool();
+        let quota = governor::Quota::with_period(std::time::Duration::from_nanos(period)).unwrap().allow_burst(std::num::NonZeroU32::new(burst).unwrap());
+        let log = Arc::new(Mutex::new(Vec::new()));
+        let layer = RateLimitLayer::new(quota, if block { RlMode::Block } else { RlMode::ReturnError });
+        let svc_a = layer.layer(Instant0(log.clone()));
+        let svc_b = layer.layer(Instant0(log.clone()));
+        NOW_NS.store(1_000_000, Ordering::SeqCst);
+        // the statement's reading of the quota, per peer: theoretical arrival time
+        let mut tat: [u64; 2] = [0, 0];
+        let mut waiting: Vec<(usize, usize, BoxFuture<'static, Result<Response<()>, Status>>)> = Vec::new();
+        for i in 0..RL_REQUESTS {
+            let adv = [0u64, 4, 10, 25][ch.below(4) as usize];
+            NOW_NS.fetch_add(adv, Ordering::SeqCst);
+            let now = NOW_NS.load(Ordering::SeqCst);
+            // requests that were waiting and whose time has come get in when polled again (Block)
+            let mut k = 0;
+            while k < waiting.len() {
+                let p = waiting[k].1;
+                if tat[p] <= now + period * (burst as u64 - 1) {
+                    let r = poll_once(waiting[k].2.as_mut());
+                    assert!(matches!(r, Poll::Ready(Ok(_))) && log.lock().unwrap().iter().any(|x| x.0 == waiting[k].0), "a waiting request did not get in although its peer's quota allows it now");
+                    tat[p] = std::cmp::max(tat[p], now) + period; cover(4);
+                    waiting.remove(k);
+                } else { k += 1; }
+            }
+            let who = match ch.below(3) { 0 => Some(P1), 1 => Some(P2), _ => None };
+            let req = Request { peer: who, id: i, body: () };
+            let mut f = match ch.below(3) { 0 => svc_a.clone().call(req), 1 => { let mut s = svc_a.clone(); s.call(req) }, _ => svc_b.clone().call(req) };
+            let r = poll_once(f.as_mut());
+            let reached = log.lock().unwrap().iter().any(|x| x.0 == i);
+            match who {
+                None => { assert!(matches!(&r, Poll::Ready(Err(s)) if s.code == StatusCode::InternalServerError) && !reached, "a request without identity must be refused with InternalServerError and never reach the service"); cover(0); }
+                Some(p) => {
+                    let pi = if p == P1 { 0 } else { 1 };
+                    let allowed = tat[pi] <= now + period * (burst as u64 - 1);
+                    if allowed {
+                        assert!(matches!(r, Poll::Ready(Ok(_))) && reached, "a request within its peer's quota was not admitted (another peer's traffic, or an earlier refusal, is being charged to it)");
+                        tat[pi] = std::cmp::max(tat[pi], now) + period; cover(1);
+                    } else if block {
+                        assert!(r.is_pending() && !reached, "a request over quota must wait outside the wrapped service (Block)");
+                        waiting.push((i, pi, f)); cover(2);
+                        continue;
+                    } else {
+                        match r {
+                            Poll::Ready(Err(s)) => {
+                                assert!(s.code == StatusCode::TooManyRequests && !reached, "a request over quota must be refused with TooManyRequests and never reach the service");
+                                let hint = s.headers.iter().find(|h| h.0 == "wait-nanos").and_then(|h| h.1.parse::<u128>().ok());
+                                assert!(matches!(hint, Some(n) if n > 0), "the refusal carries no positive wait-nanos hint");
+                                cover(3);
+                            }
+                            _ => panic!("a request over quota was neither refused (ReturnError) nor kept out of the service"),
+                        }
+                    }
+                }
+            }
+        }
+        // the bound itself, on the admission times: any window [t_i, t_j] holds at most burst + (t_j - t_i) / period admissions of one peer
+        for p in [P1, P2] {
+            let times: Vec<u64> = log.lock().unwrap().iter().filter(|x| x.1 == Some(p)).map(|x| x.2).collect();
+            for a in 0..times.len() { for b in a..times.len() { assert!((b - a + 1) as u64 <= burst as u64 + (times[b] - times[a]) / period, "more requests of one peer admitted within a window than burst + window / period"); } }
         }
     }
 }
@@ -312,6 +465,33 @@ where
     t += C.fn(IL, 'impl <ResBody, ReqBody, S> Service<Request<ReqBody>> for InflightLimit<S> .* :: fn poll_ready', 'InflightLimit::poll_ready', ['C18'], probe=False, pub=False)
     t += C.fn(IL, 'impl <ResBody, ReqBody, S> Service<Request<ReqBody>> for InflightLimit<S> .* :: fn call', 'InflightLimit::call', ['C18'], probe=False, pub=False)
     t += '}\n'
+    # ---- rate limiter (its own module: it has a WaitMode of its own) ----
+    t += 'pub mod rate_limit {\n    use super::*;\n    use governor::{clock::{Clock, DefaultClock}, middleware::NoOpMiddleware, state::keyed::DefaultKeyedStateStore, RateLimiter};\n    pub mod anemo { pub use super::super::anemo::*; pub use super::super::PeerId; }\n'
+    t += C.item(RL, 'type SharedRateLimiter')
+    t += C.item(RL, 'enum WaitMode')
+    t += C.item(RL, 'const WAIT_NANOS_HEADER')
+    t += C.item(RL, 'struct RateLimitLayer')
+    t += 'impl RateLimitLayer {\n' + C.fn(RL, 'impl RateLimitLayer :: fn new', 'RateLimitLayer::new', ['C19'], probe=False) + '}\n'
+    t += 'impl<S> Layer<S> for RateLimitLayer {\n    type Service = RateLimit<S>;\n'
+    t += C.fn(RL, 'impl <S> Layer<S> for RateLimitLayer :: fn layer', 'RateLimitLayer::layer', ['C19'], probe=False, pub=False) + '}\n'
+    t += C.item(RL, 'struct RateLimit')
+    t += 'impl<S> RateLimit<S> {\n'
+    for f in ('new', 'layer'):
+        t += C.fn(RL, 'impl <S> RateLimit<S> :: fn %s' % f, 'RateLimit::%s' % f, ['C19'], probe=False)
+    t += '}\n'
+    t += '''impl<ResBody, ReqBody, S> Service<Request<ReqBody>> for RateLimit<S>
+where
+    S: Service<Request<ReqBody>, Response = Response<ResBody>, Error = anemo::rpc::Status> + 'static + Clone + Send,
+    <S as Service<Request<ReqBody>>>::Future: Send,
+    ReqBody: 'static + Send + Sync,
+{
+    type Response = S::Response;
+    type Error = S::Error;
+    type Future = BoxFuture<'static, Result<Self::Response, Self::Error>>;
+'''
+    t += C.fn(RL, 'impl <ResBody, ReqBody, S> Service<Request<ReqBody>> for RateLimit<S> .* :: fn poll_ready', 'RateLimit::poll_ready', ['C19'], probe=False, pub=False)
+    t += C.fn(RL, 'impl <ResBody, ReqBody, S> Service<Request<ReqBody>> for RateLimit<S> .* :: fn call', 'RateLimit::call', ['C19'], probe=False, pub=False)
+    t += '}\n}\n'
     t += C.helpers_here()
     h = HARNESS
     if getattr(C, 'tier', 'quick') == 'thorough':
